@@ -50,29 +50,82 @@ def flist(v) -> str:
     return vlib.coq_list([vlib.fhex(float(x)) for x in v])
 
 
-# --------------------------------------------------------------------------- the harness term
+# --------------------------------------------------------------------------- the harness terms
 def make_samples_term(fl, ys):
+    """A Term whose membership() returns the prepared sample matrix `ys` ((r,) or (k, r)).  It records every x it is
+    called with; when it is asked for a different number of sample points than it was prepared for (a defuzzifier that
+    ignores its resolution) it answers with zeros of the matching shape, so that the run continues."""
+
     class Samples(fl.Term):
         def __init__(self, values):
             super().__init__("samples")
-            self.values = values
-            self.seen = None
+            self.values = np.asarray(values, dtype=float)
+            self.seen = []
 
         def membership(self, x):
-            self.seen = np.array(x, copy=True)
+            x = np.array(x, dtype=float, copy=True)
+            self.seen.append(x)
+            n = x.shape[-1] if x.ndim else 1
+            if n != self.values.shape[-1]:
+                return np.zeros(self.values.shape[:-1] + (n,))
             return self.values
 
     return Samples(ys)
 
 
-def defuzz_all(fl, term, lo, hi, r):
-    """{kind: 1-d array of results} from the real defuzzifiers."""
-    out = {}
+def make_spy_term(fl, inner):
+    """Delegates membership() to the real term and records every x it is called with."""
+
+    class Spy(fl.Term):
+        def __init__(self):
+            super().__init__("spy")
+            self.inner = inner
+            self.seen = []
+
+        def membership(self, x):
+            self.seen.append(np.array(x, dtype=float, copy=True))
+            return self.inner.membership(x)
+
+    return Spy()
+
+
+class Run:
+    """What the five real defuzzifiers did on one term: values[kind] (1-d array, [nan] when the call failed),
+    bad[kind] = (signature, what) for a call that raised or sampled the set at another resolution, xs[kind] = last x."""
+
+    def __init__(self):
+        self.values, self.bad, self.xs = {}, {}, {}
+
+    def __getitem__(self, kind):
+        return self.values[kind]
+
+
+def defuzz_all(fl, term, lo, hi, r, kinds=None):
+    run = Run()
     with warnings.catch_warnings(), np.errstate(all="ignore"):
         warnings.simplefilter("ignore")
-        for kind in KINDS:
-            out[kind] = np.atleast_1d(np.asarray(getattr(fl, kind)(r).defuzzify(term, lo, hi), dtype=float))
-    return out
+        for kind in kinds or KINDS:
+            if hasattr(term, "seen"):
+                term.seen = []
+            try:
+                run.values[kind] = np.atleast_1d(np.asarray(getattr(fl, kind)(r).defuzzify(term, lo, hi), dtype=float))
+            except Exception as e:  # an unexpected exception is a failing input of this case, not a crash of the run
+                run.values[kind] = np.array([math.nan])
+                run.bad[kind] = (f"{kind}:exception", f"{kind}({r}).defuzzify on [{lo},{hi}] raised {type(e).__name__}: {e}")
+                continue
+            seen = getattr(term, "seen", None)
+            if seen is not None:
+                lengths = [int(x.shape[-1]) if x.ndim else 1 for x in seen]
+                run.xs[kind] = seen[-1] if seen else None
+                if not seen or any(n != r for n in lengths):
+                    run.bad[kind] = (f"{kind}:resolution-ignored",
+                                     f"{kind}({r}).defuzzify on [{lo},{hi}] sampled the set at {lengths} points instead of its resolution {r}")
+    return run
+
+
+def own_midpoints(lo, hi, r):
+    """The documented sample points, computed here (not by Op.midpoints): lo + (i + 1/2) (hi - lo) / r."""
+    return lo + (np.arange(r, dtype=float) + 0.5) * ((hi - lo) / r)
 
 
 # --------------------------------------------------------------------------- generators
@@ -277,12 +330,19 @@ class Oracle:
         self.n += 1
         self.verdict.add_violation(sig, what, replay)
 
-    def check_row(self, lo, hi, r, ys, res, replay):
+    def report(self, run, replay):
+        """the calls that raised or ignored the resolution are violations with this case as replay"""
+        for kind, (sig, what) in run.bad.items():
+            self.fail(sig, what, dict(replay, kind=kind))
+
+    def check_row(self, lo, hi, r, ys, res, replay, skip=()):
         """res: {kind: float} results of the real defuzzifiers for one set with samples ys (all finite, >= 0)."""
         tol = tolerance(lo, hi)
         ref, _ = exact_reference(lo, hi, r, ys)
         allzero = all(float(y) == 0.0 for y in ys)
         for kind in KINDS:
+            if kind in skip:
+                continue
             z = res[kind]
             self.checks += 1
             rp = dict(replay, kind=kind)
@@ -302,7 +362,7 @@ class Oracle:
                               f"(mean of the exact ties {float(mean_strict)}, ties {'exact in binary64' if robust else 'subject to rounding'})", rp)
             elif abs(z - float(want)) > tol:
                 self.fail(f"{kind}:formula", f"{kind}({r}) on [{lo},{hi}] = {z}, defined value {float(want)}", rp)
-        if not allzero:
+        if not allzero and not {"SmallestOfMaximum", "MeanOfMaximum", "LargestOfMaximum"} & set(skip):
             s, m, l = res["SmallestOfMaximum"], res["MeanOfMaximum"], res["LargestOfMaximum"]
             if not (s <= m + tol and m <= l + tol):
                 self.fail("maxima:order", f"SOM <= MOM <= LOM fails at resolution {r} on [{lo},{hi}]: {s}, {m}, {l}", dict(replay, kind="MeanOfMaximum"))
@@ -323,19 +383,84 @@ def run(ctx, build, verdict, ev):
     samples_out = []
     evaluations = 0
 
-    def add_case(r, lo, hi, ys, results, info):
+    def add_case(r, lo, hi, ys, results, info, skip=()):
         nonlocal evaluations
-        es = vlib.coq_list([f"({i}%Z, {vlib.fhex(results[k])})" for i, k in enumerate(KINDS)])
+        kinds = [(i, k) for i, k in enumerate(KINDS) if k not in skip]   # calls that failed are reported, not compared
+        if not kinds:
+            return
+        es = vlib.coq_list([f"({i}%Z, {vlib.fhex(results[k])})" for i, k in kinds])
         lit = f"({r}%Z, {vlib.fhex(lo)}, {vlib.fhex(hi)}, {flist(ys)}, {es})"
         (small_cases if r <= 64 else large_cases).append((lit, dict(info, r=r, lo=lo, hi=hi, ys=[float(y) for y in ys], results={k: float(results[k]) for k in KINDS})))
-        evaluations += len(KINDS)
+        evaluations += len(kinds)
         pos = sum(1 for y in ys if y > 0)
-        for k in KINDS:
+        for _, k in kinds:
             z = results[k]
             if z == z and pos >= 2:
                 nontrivial.add((k, r, lo, hi, hash(tuple(float(y) for y in ys))))
 
+    def guarded(case_fn, replay, what):
+        """an unexpected exception of the implementation (or of the harness) fails this case, not the whole run"""
+        try:
+            case_fn()
+        except Exception as e:
+            import traceback
+            oracle.fail("case:exception", f"{what}: unexpected {type(e).__name__}: {e} at {traceback.format_exc().strip().splitlines()[-3].strip()}", replay)
+
     # ---- (a) prepared sample vectors through the harness term
+    def case_samples(r, pattern, lo, hi, k, rows):
+        replay = {"mode": "samples", "r": r, "lo": lo, "hi": hi, "rows": rows}
+        Y = np.array(rows[0]) if k == 1 else np.array(rows)
+        assert Y.flags["C_CONTIGUOUS"]
+        term = make_samples_term(fl, Y)
+        res = defuzz_all(fl, term, lo, hi, r)
+        oracle.report(res, replay)
+        skip = set(res.bad)
+        x_impl = np.asarray(fl.Op.midpoints(lo, hi, r), dtype=float)
+        for kind in KINDS:
+            x_seen = res.xs.get(kind)
+            if kind not in skip and not (x_seen.shape == (1, r) and all(vlib.same_float(a, b) for a, b in zip(x_seen[0], x_impl))):
+                oracle.fail(f"{kind}:sample-points", f"{kind}({r}).defuzzify on [{lo},{hi}] did not sample the set at atleast_2d(Op.midpoints(min, max, r))", dict(replay, kind=kind))
+                skip.add(kind)
+        if x_impl.shape == (r,) and (r <= 64 or rng.random() < 0.25):
+            mids.append((f"({r}%Z, {vlib.fhex(lo)}, {vlib.fhex(hi)}, {flist(x_impl)})", dict(r=r, lo=lo, hi=hi)))
+            dist["midpoint_vectors"] += 1
+        for kind in KINDS:
+            if kind not in skip and res[kind].shape != (k,):
+                oracle.fail("batch:shape", f"{kind}({r}) of {k} sets returned shape {res[kind].shape}", dict(replay, kind=kind))
+                skip.add(kind)
+        clean = pattern != "special"
+        for j, row in enumerate(rows):
+            results = {kind: float(res[kind][j]) if kind not in skip else math.nan for kind in KINDS}
+            add_case(r, lo, hi, row, results, {"mode": "samples", "pattern": pattern, "batch": k, "row": j}, skip)
+            dist["rows_batch" if k > 1 else "rows_scalar"] += 1
+            if k > 1:  # batch = rows inside the implementation, bit for bit (same samples)
+                single = defuzz_all(fl, make_samples_term(fl, np.array(row)), lo, hi, r, [kind for kind in KINDS if kind not in skip])
+                dist["batch_row_checks"] += 1
+                for kind in KINDS:
+                    if kind not in skip and kind not in single.bad and not vlib.same_float(single[kind][0], results[kind]):
+                        oracle.fail("batch:rows", f"{kind}({r}): row {j} of a batch of {k} sets gives {results[kind]}, the set alone gives {single[kind][0]}",
+                                    dict(replay, kind=kind, row=j))
+            # the tolerance oracle needs samples whose products with x do not underflow (sub-normal samples are
+            # covered by the bit-exact correspondence only)
+            row_ok = clean and all(math.isfinite(y) and (y == 0 or y >= 1e-280) for y in row)
+            if row_ok and lo < hi and math.isfinite(hi - lo) and (hi - lo) > 1e-200 and r <= ctx.n(300, 1000):
+                oracle.check_row(lo, hi, r, row, results, {"mode": "samples", "r": r, "lo": lo, "hi": hi, "rows": [row]}, skip)
+        if len(samples_out) < 3 and r in (5, 40, 300 if r >= 300 else -1):
+            samples_out.append({"mode": "samples", "pattern": pattern, "r": r, "lo": lo, "hi": hi, "batch": k, "first_samples": rows[0][:6],
+                                "results_row0": {kind: float(res[kind][0]) for kind in KINDS}})
+        if r <= 300 and rng.random() < 0.15 and all(math.isfinite(v) or v != v for v in rows[0]):
+            ys = rows[0]
+            with warnings.catch_warnings(), np.errstate(all="ignore"):
+                warnings.simplefilter("ignore")
+                a2 = np.atleast_2d(np.array(ys))
+                several = np.array([ys, ys[::-1], ys])
+                e = [a2.sum(axis=1)[0], np.nanmean(a2, axis=1)[0], np.nancumsum(a2, axis=1)[0, -1], a2.min(axis=1)[0], a2.max(axis=1)[0],
+                     np.nanmin(a2, axis=1)[0], np.nanmax(a2, axis=1)[0]]
+                if not (vlib.same_float(several.sum(axis=1)[0], e[0]) and vlib.same_float(several.sum(axis=1)[2], e[0])):
+                    verdict.add_broken("harness", "numpy-sum-rows", f"ndarray.sum(axis=1) of a (3, {r}) array differs from the one-row sum")
+            reds.append((f"({flist(ys)}, {flist(e)})", dict(r=r, ys=ys)))
+            dist["reduction_vectors"] += 1
+
     small, large = resolutions(ctx)
     plan = [(r, ctx.n(9, 40)) for r in small] + [(r, ctx.n(3, 6)) for r in large]
     for r, count in plan:
@@ -347,54 +472,82 @@ def run(ctx, build, verdict, ev):
             k = rng.choice([1, 1, 1, 2, 3, 5]) if r <= 200 else rng.choice([1, 1, 2])
             rows = [gen_row(rng, r, pattern if j == 0 else rng.choice([pattern, "random", "zeros"])) for j in range(k)]
             dist[pattern] += 1
-            Y = np.array(rows[0]) if k == 1 else np.array(rows)
-            assert Y.flags["C_CONTIGUOUS"]
-            term = make_samples_term(fl, Y)
-            res = defuzz_all(fl, term, lo, hi, r)
-            x_impl = np.asarray(fl.Op.midpoints(lo, hi, r), dtype=float)
-            if not (term.seen.shape == (1, r) and all(vlib.same_float(a, b) for a, b in zip(term.seen[0], x_impl))):
-                verdict.add_broken("harness", "midpoints-passed-to-term", f"membership() was not called with atleast_2d(Op.midpoints): r={r} lo={lo} hi={hi}")
-            if r <= 64 or rng.random() < 0.25:
-                mids.append((f"({r}%Z, {vlib.fhex(lo)}, {vlib.fhex(hi)}, {flist(x_impl)})", dict(r=r, lo=lo, hi=hi)))
-                dist["midpoint_vectors"] += 1
-            for kind in KINDS:
-                if res[kind].shape != (k,):
-                    verdict.add_violation("batch:shape", f"{kind}({r}) of {k} sets returned shape {res[kind].shape}", {"mode": "samples", "kind": kind, "r": r, "lo": lo, "hi": hi, "rows": rows})
-            clean = pattern != "special"
-            for j, row in enumerate(rows):
-                results = {kind: float(res[kind][j]) if res[kind].shape == (k,) else math.nan for kind in KINDS}
-                info = {"mode": "samples", "pattern": pattern, "batch": k, "row": j}
-                add_case(r, lo, hi, row, results, info)
-                dist["rows_batch" if k > 1 else "rows_scalar"] += 1
-                if k > 1:  # batch = rows inside the implementation, bit for bit (same samples)
-                    single = defuzz_all(fl, make_samples_term(fl, np.array(row)), lo, hi, r)
-                    dist["batch_row_checks"] += 1
-                    for kind in KINDS:
-                        if not vlib.same_float(single[kind][0], results[kind]):
-                            oracle.fail("batch:rows", f"{kind}({r}): row {j} of a batch of {k} sets gives {results[kind]}, the set alone gives {single[kind][0]}",
-                                        {"mode": "samples", "kind": kind, "r": r, "lo": lo, "hi": hi, "rows": rows, "row": j})
-                # the tolerance oracle needs samples whose products with x do not underflow (sub-normal samples are
-                # covered by the bit-exact correspondence only)
-                row_ok = clean and all(math.isfinite(y) and (y == 0 or y >= 1e-280) for y in row)
-                if row_ok and lo < hi and math.isfinite(hi - lo) and (hi - lo) > 1e-200 and r <= ctx.n(300, 1000):
-                    oracle.check_row(lo, hi, r, row, results, {"mode": "samples", "r": r, "lo": lo, "hi": hi, "rows": [row]})
-            if len(samples_out) < 3 and r in (5, 40, 300 if r >= 300 else -1):
-                samples_out.append({"mode": "samples", "pattern": pattern, "r": r, "lo": lo, "hi": hi, "batch": k, "first_samples": rows[0][:6],
-                                    "results_row0": {kind: float(res[kind][0]) for kind in KINDS}})
-            if r <= 300 and rng.random() < 0.15 and all(math.isfinite(v) or v != v for v in rows[0]):
-                ys = rows[0]
-                with warnings.catch_warnings(), np.errstate(all="ignore"):
-                    warnings.simplefilter("ignore")
-                    a2 = np.atleast_2d(np.array(ys))
-                    several = np.array([ys, ys[::-1], ys])
-                    e = [a2.sum(axis=1)[0], np.nanmean(a2, axis=1)[0], np.nancumsum(a2, axis=1)[0, -1], a2.min(axis=1)[0], a2.max(axis=1)[0],
-                         np.nanmin(a2, axis=1)[0], np.nanmax(a2, axis=1)[0]]
-                    if not (vlib.same_float(several.sum(axis=1)[0], e[0]) and vlib.same_float(several.sum(axis=1)[2], e[0])):
-                        verdict.add_broken("harness", "numpy-sum-rows", f"ndarray.sum(axis=1) of a (3, {r}) array differs from the one-row sum")
-                reds.append((f"({flist(ys)}, {flist(e)})", dict(r=r, ys=ys)))
-                dist["reduction_vectors"] += 1
+            guarded(lambda: case_samples(r, pattern, lo, hi, k, rows), {"mode": "samples", "r": r, "lo": lo, "hi": hi, "rows": rows},
+                    f"prepared samples ({pattern}) at resolution {r} on [{lo},{hi}]")
 
-    # ---- (b) real Aggregated sets of 0-5 activated algebraic terms; the implementation's own samples go to the model
+    # ---- (b) real Aggregated sets of 0-5 activated algebraic terms
+    #      correspondence: the samples the defuzzifier itself obtains (Op.midpoints at its resolution) go to the model;
+    #      direct oracle: the documented value is computed from this module's OWN midpoints at the defuzzifier's resolution
+    def case_aggregated(spec, replay):
+        r, lo, hi, k = spec["r"], spec["lo"], spec["hi"], spec["k"]
+        agg = build_aggregated(fl, spec)
+        res = defuzz_all(fl, make_spy_term(fl, agg), lo, hi, r)
+        oracle.report(res, replay)
+        failed = {kind for kind, (sig, _) in res.bad.items() if sig.endswith(":exception")}
+        skip = set(res.bad)
+        x_impl = np.atleast_2d(fl.Op.midpoints(lo, hi, r))
+        x_own = np.atleast_2d(own_midpoints(lo, hi, r))
+        with np.errstate(all="ignore"):
+            Y = np.atleast_2d(np.asarray(agg.membership(x_impl), dtype=float))
+            Y_own = np.atleast_2d(np.asarray(agg.membership(x_own), dtype=float))
+        if not spec["terms"]:
+            dist["aggregated_empty"] += 1
+            Y = np.zeros((1, r))  # Aggregated.membership of the empty set is the scalar 0.0, which broadcasts
+            Y_own = np.zeros((1, r))
+        if k > 1 and r == 1:
+            # (k,1) memberships are squeezed to (k,) by Activated.membership and read as ONE row of k samples
+            rows_alone = [defuzz_all(fl, build_aggregated(fl, spec, row=j), lo, hi, r) for j in range(k)]
+            for kind in KINDS:
+                if kind in failed:
+                    continue
+                want = [float(rows_alone[j][kind][0]) for j in range(k)]
+                got = res[kind]
+                if got.shape != (k,) or not all(vlib.same_float(a, b) for a, b in zip(got, want)):
+                    oracle.fail("batch:resolution-1", f"{kind}(1) of a batch of {k} sets returns {got.tolist()}, the sets one by one give {want}", dict(replay, kind=kind))
+            return
+        if Y.shape != (k, r) or Y_own.shape != (k, r):
+            verdict.add_broken("harness", "aggregated-shape", f"membership shapes {Y.shape}, {Y_own.shape}, expected {(k, r)}: {spec}")
+            return
+        dist["aggregated_batch" if k > 1 else "aggregated_scalar"] += 1
+        for kind in KINDS:
+            if kind not in failed and res[kind].shape != (k,):
+                oracle.fail("batch:shape", f"{kind}({r}) of {k} aggregated sets returned shape {res[kind].shape}", dict(replay, kind=kind))
+                failed.add(kind)
+                skip.add(kind)
+        for j in range(k):
+            results = {kind: float(res[kind][j]) if kind not in failed else math.nan for kind in KINDS}
+            add_case(r, lo, hi, Y[j], results, {"mode": "aggregated", "spec": spec, "row": j}, skip)
+            if r <= ctx.n(300, 1000):
+                # a defuzzifier that ignored its resolution is still held to the value defined at its resolution
+                oracle.check_row(lo, hi, r, Y_own[j], results, replay, failed)
+            if k > 1:  # batch = rows on the public API: the j-th set alone
+                alone = defuzz_all(fl, build_aggregated(fl, spec, row=j), lo, hi, r, [kind for kind in KINDS if kind not in failed])
+                dist["batch_row_checks"] += 1
+                tol = tolerance(lo, hi)
+                for kind in KINDS:
+                    if kind in failed or kind in alone.bad:
+                        continue
+                    a, b = float(alone[kind][0]), results[kind]
+                    if (a != a) != (b != b) or (a == a and abs(a - b) > tol):
+                        oracle.fail("batch:rows", f"{kind}({r}): set {j} of a batch of {k} gives {b}, alone it gives {a}", dict(replay, kind=kind, row=j))
+        # translation of the centroid: shift every vertex and the range by c
+        if k == 1 and spec["terms"] and r <= 200 and "Centroid" not in failed:
+            c = rng.choice([1.0, -3.0, rng.randint(-640, 640) / 64, rng.uniform(-20, 20)])
+            w = hi - lo
+            edges = [p for t in spec["terms"] if t["cls"] == "Rectangle" for p in t["params"]]
+            if all(abs(x - e) > 1e-6 * w for x in x_own[0] for e in edges):
+                z0 = float(res["Centroid"][0])
+                moved = defuzz_all(fl, build_aggregated(fl, spec, shift=c), lo + c, hi + c, r, ["Centroid"])
+                oracle.report(moved, dict(replay, shift=c))
+                if "Centroid" not in moved.bad:
+                    z1 = float(moved["Centroid"][0])
+                    dist["translation_checks"] += 1
+                    tol = 1e-9 * w + 1e-12 * max(abs(lo), abs(hi), abs(lo + c), abs(hi + c))
+                    if (z0 != z0) != (z1 != z1) or (z0 == z0 and abs((z1 - c) - z0) > tol):
+                        oracle.fail("Centroid:translation", f"Centroid({r}) = {z0} on [{lo},{hi}] but {z1} after translating set and range by {c}", dict(replay, kind="Centroid", shift=c))
+        if len(samples_out) < 6 and spec["terms"] and rng.random() < 0.05:
+            samples_out.append({"mode": "aggregated", "spec": spec, "results_row0": {kind: float(res[kind][0]) for kind in KINDS}})
+
     agg_res = [1, 2, 3, 4, 5, 7, 8, 9, 10, 16, 31, 32, 33, 50, 64, 100, 128, 129, 200, 500, 1000]
     for _ in range(ctx.n(260, 6000)):
         batch = rng.random() < 0.4
@@ -403,65 +556,8 @@ def run(ctx, build, verdict, ev):
         if r > 200 and rng.random() < 0.6:
             r = rng.randrange(1, 65)
         spec["r"] = r
-        lo, hi, k = spec["lo"], spec["hi"], spec["k"]
-        agg = build_aggregated(fl, spec)
-        res = defuzz_all(fl, agg, lo, hi, r)
-        x_impl = np.atleast_2d(fl.Op.midpoints(lo, hi, r))
-        with np.errstate(all="ignore"):
-            Y = np.atleast_2d(np.asarray(agg.membership(x_impl), dtype=float))
-        if not spec["terms"]:
-            dist["aggregated_empty"] += 1
-            Y = np.zeros((1, r))  # Aggregated.membership of the empty set is the scalar 0.0, which broadcasts
         replay = {"mode": "aggregated", "spec": spec}
-        if k > 1 and r == 1:
-            # (k,1) memberships are squeezed to (k,) by Activated.membership and read as ONE row of k samples
-            rows_alone = [defuzz_all(fl, build_aggregated(fl, spec, row=j), lo, hi, r) for j in range(k)]
-            for kind in KINDS:
-                want = [float(rows_alone[j][kind][0]) for j in range(k)]
-                got = res[kind]
-                if got.shape != (k,) or not all(vlib.same_float(a, b) for a, b in zip(got, want)):
-                    oracle.fail("batch:resolution-1", f"{kind}(1) of a batch of {k} sets returns {got.tolist()}, the sets one by one give {want}", dict(replay, kind=kind))
-            continue
-        if Y.shape != (k, r):
-            verdict.add_broken("harness", "aggregated-shape", f"membership shape {Y.shape}, expected {(k, r)}: {spec}")
-            continue
-        dist["aggregated_batch" if k > 1 else "aggregated_scalar"] += 1
-        for j in range(k):
-            results = {}
-            for kind in KINDS:
-                if res[kind].shape != (k,):
-                    oracle.fail("batch:shape", f"{kind}({r}) of {k} aggregated sets returned shape {res[kind].shape}", dict(replay, kind=kind))
-                    results[kind] = math.nan
-                else:
-                    results[kind] = float(res[kind][j])
-            add_case(r, lo, hi, Y[j], results, {"mode": "aggregated", "spec": spec, "row": j})
-            if r <= ctx.n(300, 1000):
-                oracle.check_row(lo, hi, r, Y[j], results, replay)
-            if k > 1:  # batch = rows on the public API: the j-th set alone
-                alone = defuzz_all(fl, build_aggregated(fl, spec, row=j), lo, hi, r)
-                dist["batch_row_checks"] += 1
-                tol = tolerance(lo, hi)
-                for kind in KINDS:
-                    a, b = float(alone[kind][0]), results[kind]
-                    if (a != a) != (b != b) or (a == a and abs(a - b) > tol):
-                        oracle.fail("batch:rows", f"{kind}({r}): set {j} of a batch of {k} gives {b}, alone it gives {a}", dict(replay, kind=kind, row=j))
-        # translation of the centroid: shift every vertex and the range by c
-        if k == 1 and spec["terms"] and r <= 200:
-            c = rng.choice([1.0, -3.0, rng.randint(-640, 640) / 64, rng.uniform(-20, 20)])
-            w = hi - lo
-            edges = [p for t in spec["terms"] if t["cls"] == "Rectangle" for p in t["params"]]
-            xs = x_impl[0]
-            if all(abs(x - e) > 1e-6 * w for x in xs for e in edges):
-                with warnings.catch_warnings(), np.errstate(all="ignore"):
-                    warnings.simplefilter("ignore")
-                    z0 = float(fl.Centroid(r).defuzzify(agg, lo, hi))
-                    z1 = float(fl.Centroid(r).defuzzify(build_aggregated(fl, spec, shift=c), lo + c, hi + c))
-                dist["translation_checks"] += 1
-                tol = 1e-9 * w + 1e-12 * max(abs(lo), abs(hi), abs(lo + c), abs(hi + c))
-                if (z0 != z0) != (z1 != z1) or (z0 == z0 and abs((z1 - c) - z0) > tol):
-                    oracle.fail("Centroid:translation", f"Centroid({r}) = {z0} on [{lo},{hi}] but {z1} after translating set and range by {c}", dict(replay, kind="Centroid", shift=c))
-        if len(samples_out) < 6 and spec["terms"] and rng.random() < 0.05:
-            samples_out.append({"mode": "aggregated", "spec": spec, "results_row0": {kind: float(res[kind][0]) for kind in KINDS}})
+        guarded(lambda: case_aggregated(spec, replay), replay, f"aggregated set at resolution {r}")
 
     # ---- evaluate the model inside Coq
     mism = []
